@@ -88,7 +88,7 @@ CLAIMS = {
         "_run_weak_sim on enumerated and random histories, serial and parallel (deterministic executor). The search runs real "
         "simulations: reused vs fresh noise-free results, deep equality of circuit/Hamiltonian/noise model before and after, one "
         "OS-seeded Generator per trajectory with distinct states. PARTIAL: statistical independence of separately OS-seeded "
-        "generators (also across forked workers) is a property of NumPy/the OS and is not modelled. Extended: layer-sampling histories (columns depend on the circuit of the run only). Real pools of four workers: no trajectory repeats another of the same or previous run; generator-per-trajectory is a correspondence, not a demand. One AnalogSimParams object served by TJM, MCWF and Lindblad in any order (run_analog model + trace).",
+        "generators (also across forked workers) is a property of NumPy/the OS and is not modelled. Extended: layer-sampling histories (columns depend on the circuit of the run only). Real pools of four workers: no trajectory repeats another of the same or previous run; generator-per-trajectory is a correspondence, not a demand. One AnalogSimParams object served by TJM, MCWF and Lindblad in any order (run_analog model + trace). State-ray check with an asymmetric initial state.",
         COMMON_NOTE,
         "DESIGN.md §3 C20"),
     "C18": (
@@ -138,7 +138,7 @@ CLAIMS = {
         "checked on the dense vector. The search enumerates the WHOLE outcome tree of one-step trajectories (TJM order 1, order 2, "
         "MCWF) with the probabilities the code itself uses and compares the average with the dense Lindblad solution at dt and dt/2 "
         "(local error must fall ~4x) and under reversal of the process list. PARTIAL: 'first-order consistent + symmetric "
-        "composition => global O(dt^2) at fixed step count' and the exponentials themselves are not mechanised. Extended: the dissipation sweep is modelled (every process damped exactly once at its own site; theorem + operator-identity trace of apply_dissipation against each process's own exponential), preprocess_mcwf is tied operator by operator, lists contain zero-strength entries and repeated kinds with distinct strengths. One unravelling step averaged over its branches = Lindblad generator to first order, for every list of jump operators, in every ring with an anti-involution (LinAlg/Unravel.v).",
+        "composition => global O(dt^2) at fixed step count' and the exponentials themselves are not mechanised. Extended: the dissipation sweep is modelled (every process damped exactly once at its own site; theorem + operator-identity trace of apply_dissipation against each process's own exponential), preprocess_mcwf is tied operator by operator, lists contain zero-strength entries and repeated kinds with distinct strengths. One unravelling step averaged over its branches = Lindblad generator to first order, for every list of jump operators, in every ring with an anti-involution (LinAlg/Unravel.v). Symmetric splitting exact through second order (LinAlg/Strang.v).",
         COMMON_NOTE + "Axioms: standard-library real-number axioms for the theorems over R.",
         "DESIGN.md §3 C01"),
     "C03": (
@@ -160,7 +160,7 @@ CLAIMS = {
         "index and the signs of <Z_i> reported by TJM order 1/2, MCWF and Lindblad (t=0 and after evolution under a site-diagonal "
         "Hamiltonian) vs the model. Search: the solvers on asymmetric initial states (basis strings, Neel, wall) with random "
         "Hamiltonians and one-site noise against the dense master equation / unitary evolution. PARTIAL: RK45 meeting its "
-        "tolerance and the time-stepping error of TJM/MCWF are not mechanised (tolerances 2e-4 / 5e-3). Extended: two-site operator embedding (pair_digit) with theorem and tie through the four embedding front-ends; complex initial states, Y observables, two-site observables and processes in the search. Liouvillian tie (generator integrated by the Lindblad back-end vs dense master equation, switched-off entries); mixed two-site observables.",
+        "tolerance and the time-stepping error of TJM/MCWF are not mechanised (tolerances 2e-4 / 5e-3). Extended: two-site operator embedding (pair_digit) with theorem and tie through the four embedding front-ends; complex initial states, Y observables, two-site observables and processes in the search. Liouvillian tie (generator integrated by the Lindblad back-end vs dense master equation, switched-off entries); mixed two-site observables. Initial-state object histories.",
         COMMON_NOTE,
         "DESIGN.md §3 C06"),
     "C04": (
@@ -184,7 +184,7 @@ CLAIMS = {
         "the model. PARTIAL (searched, not mechanised): dense interpretation of the tensors, dense = sparse, SVD compression within "
         "tolerance, from_matrix round trip, boson/transmon automata, the other circuit builders (Heisenberg, 2-D snake order, "
         "Fermi-Hubbard ladders) and Lie-Trotter convergence — every builder is compared with the dense sum of its documented terms and "
-        "every circuit with exp(-iHT) at 4/8/16 steps. Extended: HamTerms (term lists of hamiltonian/ising/heisenberg; bonds, fields, coefficients, count; captured-argument tie), ChainFSM (all-lengths theorem for the Start/channel/End automaton; bose_hubbard tensors decoded against it), Transmon (exact decoding; bounded theorem for lengths 1..12), every compression schedule in the oracle.",
+        "every circuit with exp(-iHT) at 4/8/16 steps. Extended: HamTerms (term lists of hamiltonian/ising/heisenberg; bonds, fields, coefficients, count; captured-argument tie), ChainFSM (all-lengths theorem for the Start/channel/End automaton; bose_hubbard tensors decoded against it), Transmon (exact decoding; bounded theorem for lengths 1..12), every compression schedule in the oracle. Sequential splitting first-order with commutator defect, symmetric splitting second-order (Strang.v).",
         COMMON_NOTE,
         "DESIGN.md §3 C07"),
     "C10": (
@@ -221,7 +221,7 @@ CLAIMS = {
         "recording identity kernels on random bond patterns and caps. PARTIAL: exactness of the local Krylov steps (C19), truncation "
         "error (C09), second order of the symmetric splitting / first order of BUG are not mechanised; the search checks norm and "
         "energy drift and the error against the dense exp(-iHt) at dt and dt/2 (ratio test above the noise floor) and the agreement "
-        "of the two integrator orders. Extended: step_ops (which operator tensors a step works with) with theorem and operator-identity trace incl. an MPO object rebuilt in place; wide 8-site chains (matrix-free local steps). BUG step list (bug.bug) modelled and traced: every site forward by one dt once, own operator tensor and environment blocks, truncation last.",
+        "of the two integrator orders. Extended: step_ops (which operator tensors a step works with) with theorem and operator-identity trace incl. an MPO object rebuilt in place; wide 8-site chains (matrix-free local steps). BUG step list (bug.bug) modelled and traced: every site forward by one dt once, own operator tensor and environment blocks, truncation last. One-site integrator model (SingleSite.v); mirrored sweeps second-order (Strang.v).",
         COMMON_NOTE,
         "DESIGN.md §3 C05"),
     "C19": (
@@ -233,7 +233,7 @@ CLAIMS = {
         "applications of the real expm_krylov on invariant-subspace starts and on runs that can neither break down nor converge vs "
         "the dimension the skeleton predicts. PARTIAL (searched): floating-point Lanczos orthogonality, LAPACK, and the accuracy "
         "bound — expm_krylov / expm_arnoldi are compared with scipy.linalg.expm for Hermitian / non-Hermitian operators, deficient "
-        "starts, +-dt, sizes around the dense (128) and compiled (4096) switches; norm preservation on every path. Extended: defective generators, negative steps, dense-vs-matrix-free comparison. Nearly invariant Krylov spaces (weak blocks, near-eigenvector starts, small units) in the accuracy oracle.",
+        "starts, +-dt, sizes around the dense (128) and compiled (4096) switches; norm preservation on every path. Extended: defective generators, negative steps, dense-vs-matrix-free comparison. Nearly invariant Krylov spaces (weak blocks, near-eigenvector starts, small units) in the accuracy oracle. Local TDVP updates vs the exponential of the local operator down to one-entry tensors.",
         COMMON_NOTE,
         "DESIGN.md §3 C19"),
     "C17": (
